@@ -170,6 +170,33 @@ func txnNo(from string) int {
 	return n
 }
 
+// next hops are reused between the behaviours of one process (thousands of
+// listeners would exhaust the loopback port range); everything that differs
+// between behaviours is reconfigured while the server is idle.
+var nextHops = map[string]*scripted.SMTPServer{}
+
+func nextHop(t *testing.T, d string, lmtp, noUTF8 bool, emit func(string, map[string]interface{})) *scripted.SMTPServer {
+	key := fmt.Sprintf("%s/%v", d, lmtp)
+	srv := nextHops[key]
+	if srv == nil {
+		var err error
+		srv, err = scripted.NewSMTPServer(scripted.SMTPServerConfig{
+			Name: strings.ToLower(d), Hostname: "mx-" + strings.ToLower(d) + ".test.invalid", LMTP: lmtp})
+		if err != nil {
+			t.Fatal(err)
+		}
+		nextHops[key] = srv
+	}
+	if !srv.WaitIdle(20 * time.Second) {
+		t.Fatalf("HARNESS-TIMEOUT next hop %s still has open connections", key)
+	}
+	srv.Reconfigure(func(c *scripted.SMTPServerConfig) {
+		c.NoSMTPUTF8 = noUTF8
+		c.Emit = emit
+	})
+	return srv
+}
+
 func runRcptBehaviour(t *testing.T, b RBehaviour, out *bufio.Writer) {
 	start := time.Now()
 	tr := vtrace.New(out, b.ID)
@@ -186,15 +213,7 @@ func runRcptBehaviour(t *testing.T, b RBehaviour, out *bufio.Writer) {
 	}
 	for _, d := range classes {
 		d := d
-		srv, err := scripted.NewSMTPServer(scripted.SMTPServerConfig{
-			Name: strings.ToLower(d), Hostname: "mx-" + strings.ToLower(d) + ".test.invalid",
-			LMTP: b.Cfg.Kind == "lmtp", NoSMTPUTF8: !b.Cfg.UTF8,
-			Emit: func(e string, f map[string]interface{}) { tr.Emit(e, vtrace.Ev(f)) },
-		})
-		if err != nil {
-			t.Fatal(err)
-		}
-		defer srv.Close()
+		srv := nextHop(t, d, b.Cfg.Kind == "lmtp", !b.Cfg.UTF8, func(e string, f map[string]interface{}) { tr.Emit(e, vtrace.Ev(f)) })
 		srv.SetSelect(func(from string, n int) *scripted.SMTPTxn {
 			i := txnNo(from)
 			if i < 1 || i > len(b.Txns) {
@@ -207,6 +226,16 @@ func runRcptBehaviour(t *testing.T, b RBehaviour, out *bufio.Writer) {
 	}
 
 	var tgt module.DeliveryTarget
+	closeTgt := func() {}
+	defer func() {
+		// every event of this behaviour is written before the next one starts
+		closeTgt()
+		for _, srv := range servers {
+			if !srv.WaitIdle(20 * time.Second) {
+				t.Fatalf("HARNESS-TIMEOUT behaviour %d: next hop still has open connections", b.ID)
+			}
+		}
+	}()
 	switch b.Cfg.Kind {
 	case "remote":
 		rt := remote.VerifRemoteNewTarget(remote.VerifRemoteConfig{
@@ -222,7 +251,7 @@ func runRcptBehaviour(t *testing.T, b RBehaviour, out *bufio.Writer) {
 			SubmissionTimeout: 20 * time.Second,
 			Log:               nolog,
 		})
-		defer rt.Close()
+		closeTgt = func() { rt.Close() }
 		tgt = rt
 	case "lmtp":
 		mod, err := smtp_downstream.NewDownstream("target.lmtp", "verif", nil, []string{"tcp://" + servers["D1"].Addr()})
